@@ -1107,7 +1107,15 @@ fn run_once(f: EstFn, inp: &Value, data: &Data, threads: usize, hook: bool, pool
     let mut par = vec![];
     if hook {
         linfa::verif_hook::enable(false);
-        par = linfa::verif_hook::drain().iter().map(|l| compact_hook(l)).collect();
+        let lines = linfa::verif_hook::drain();
+        // guard against an event flood (a tree whose hook logs large loops row by row): keep a prefix
+        // and an unknown-code marker, which no action of the schedule model explains
+        const MAX_HOOK_EVENTS: usize = 400_000;
+        par = lines.iter().take(MAX_HOOK_EVENTS).map(|l| compact_hook(l)).collect();
+        if lines.len() > MAX_HOOK_EVENTS {
+            par.truncate(1000);
+            par.push(json!([0, 0, -1, -1, lines.len() as i64]));
+        }
     }
     let pmsg = r.err().map(|p| panic_msg(&p));
     if let Some(m) = &pmsg {
